@@ -1763,9 +1763,16 @@ class FileHashStore(HashStore):
 
         # tmp is a file-like object that is already opened for writing by default
         self.fhs_logger.debug("Writing stream to tmp metadata file: %s", tmp.name)
-        with tmp as tmp_file:
-            for data in stream:
-                tmp_file.write(self._cast_to_bytes(data))
+        try:
+            with tmp as tmp_file:
+                for data in stream:
+                    tmp_file.write(self._cast_to_bytes(data))
+        except Exception:
+            # The metadata stream could not be read (or the tmp file not written): do not
+            # leave the incomplete tmp file behind
+            if os.path.isfile(tmp.name):
+                os.remove(tmp.name)
+            raise
 
         self.fhs_logger.debug("Successfully written to tmp metadata file: %s", tmp.name)
         return tmp.name
